@@ -98,6 +98,29 @@ def oid_der(s):
     return tlv([6], out)
 
 
+def int_der(v):
+    """DER INTEGER of a non-negative value (minimal two's complement)"""
+    k = max(1, (v.bit_length() + 8) // 8)
+    return tlv([2], v.to_bytes(k, "big"))
+
+
+PK_CURVE = {24: "1.2.112.0.2.0.34.101.45.3.0", 32: "1.2.112.0.2.0.34.101.45.3.1", 48: "1.2.112.0.2.0.34.101.45.3.2", 64: "1.2.112.0.2.0.34.101.45.3.3"}
+SH_FIELD = {17: "1.2.112.0.2.0.34.101.60.2.1", 25: "1.2.112.0.2.0.34.101.60.2.2", 33: "1.2.112.0.2.0.34.101.60.2.3"}
+
+
+def epki_len_ref(kind, n, it):
+    """length of the EncryptedPrivateKeyInfo bpkiPrivkeyWrap / bpkiShareWrap must announce AND write (Python DER reference):
+    it depends on the iteration count through the DER INTEGER iterCount (2 content octets up to 32767, 3 up to 8388607, ...)"""
+    alg = oid_der("1.2.112.0.2.0.34.101.45.2.1") + oid_der(PK_CURVE[n]) if kind == "pk" else \
+        oid_der("1.2.112.0.2.0.34.101.60.11") + oid_der(SH_FIELD[n])
+    pki = tlv([0x30], int_der(0) + tlv([0x30], alg) + tlv([4], bytes(n)))
+    prf = tlv([0x30], oid_der("1.2.112.0.2.0.34.101.47.12") + tlv([5], b""))
+    kdf = tlv([0x30], oid_der("1.2.840.113549.1.5.12") + tlv([0x30], tlv([4], bytes(8)) + int_der(it) + prf))
+    kwp = tlv([0x30], oid_der("1.2.112.0.2.0.34.101.31.73") + tlv([5], b""))
+    encalg = tlv([0x30], oid_der("1.2.840.113549.1.5.13") + tlv([0x30], kdf + kwp))
+    return len(tlv([0x30], encalg + tlv([4], bytes(len(pki) + 16))))
+
+
 def body_der(c, auth_tag=(0x42,), ver=0, eid_present=None, esign_present=None, key_oid="1.2.112.0.2.0.34.101.45.2.1"):
     """CertificateBody as btokCVCBodyEnc writes it (Python reference used to craft malformed bodies)"""
     b = tlv([0x5F, 0x29], bytes([ver])) + tlv(auth_tag, c["a"])
@@ -672,14 +695,14 @@ def cvc_stage(ctx, bag, run_c):
 # ----------------------------------------------------------------------------- containers
 def bpki_stage1(ctx, bag, st):
     rng, quick = ctx.rng, ctx.tier == "quick"
-    st["wraps"] = []          # (index, kind, payload, pwd, salt, iter, genuine)
-    def add(kind, payload, pwd, salt, it, want, key, what, raw=False):
+    st["wraps"] = []          # (index, kind, payload, pwd, salt, iter, genuine, model side too?)
+    def add(kind, payload, pwd, salt, it, want, key, what, raw=False, lean=True):
         if raw:
             line = "rawwrap %s %s %s %s %d" % (kind, hx(payload), hx(pwd), hx(salt), it)
         else:
             line = "%swrap %s %s %s %d" % (kind, hx(payload), hx(pwd), hx(salt), it)
-        bag.add(line, want, key, what)
-        st["wraps"].append((len(bag.ops) - 1, kind, payload, pwd, salt, it, not raw))
+        bag.add(line, want, key, what, lean=lean)
+        st["wraps"].append((len(bag.ops) - 1, kind, payload, pwd, salt, it, not raw, lean))
     pwds = [b"", b"zed", rng.randbytes(7), rng.randbytes(31), rng.randbytes(32), rng.randbytes(33), rng.randbytes(300)]
     # genuine Wrap: the iteration minimum and the key lengths (PBKDF2 with 10000 iterations: few ops)
     add("pk", rng.randbytes(32), b"zed", rng.randbytes(8), 9999, str(BAD_INPUT), "bpki:wrap:iter", "iteration count below the minimum accepted")
@@ -694,7 +717,39 @@ def bpki_stage1(ctx, bag, st):
         gen = [gen[i] for i in sorted(rng.sample(range(7), 4))]
     for j, (kind, n, it) in enumerate(gen):
         payload = rng.randbytes(n) if kind == "pk" else bytes([rng.choice([1, 16, rng.randrange(1, 17)])]) + rng.randbytes(n - 1)
-        add(kind, payload, pwds[(j * 3 + ctx.seed) % len(pwds)], rng.randbytes(8), it, r"0 [0-9a-f]+", "bpki:wrap:accept", "valid container refused")
+        add(kind, payload, pwds[(j * 3 + ctx.seed) % len(pwds)], rng.randbytes(8), it, r"0 [0-9a-f]{%d}" % (2 * epki_len_ref(kind, n, it)),
+            "bpki:wrap:accept", "valid container refused (or of a length other than the DER reference)")
+    # ---- the iteration count at the boundaries of its DER length (iterCount INTEGER: 2 | 3 | 4 ... content octets):
+    # (a) the sizing pass alone (epki == 0, no PBKDF2): announced length against the Python DER reference, every key / share length
+    ITERS = [10000, 10001, 32767, 32768, 65535, 65536, 8388607, 8388608, (1 << 31) - 1, 1 << 31, (1 << 32) - 1, 1 << 32,
+             (1 << 39) - 1, 1 << 39, (1 << 47) - 1, 1 << 47, (1 << 55) - 1, 1 << 55, (1 << 63) - 1, 1 << 63, (1 << 64) - 1]
+    for it in ITERS + [rng.randrange(10000, 1 << 64) for _ in range(4)]:
+        for n in (24, 32, 48, 64):
+            bag.add("pkwraplen %s %d" % (hx(rng.randbytes(n)), it), "0 %d" % epki_len_ref("pk", n, it), "bpki:wraplen",
+                    "bpkiPrivkeyWrap announces a wrong container length for iter = %d (DER length of iterCount)" % it)
+        for n in (17, 25, 33):
+            for idx in ((1, 16) if it in (10000, 32768) else (rng.randrange(1, 17),)):
+                bag.add("shwraplen %s %d" % (hx(bytes([idx]) + rng.randbytes(n - 1)), it), "0 %d" % epki_len_ref("sh", n, it), "bpki:wraplen",
+                        "bpkiShareWrap announces a wrong container length for iter = %d (DER length of iterCount)" % it)
+    for it in (0, 1, 9999):
+        bag.add("pkwraplen %s %d" % (hx(rng.randbytes(32)), it), str(BAD_INPUT), "bpki:wrap:iter", "iteration count below the minimum accepted by the sizing pass")
+    bag.add("pkwraplen %s 10000" % hx(rng.randbytes(31)), str(BAD_PRIVKEY), "bpki:wrap:keylen", "key length")
+    bag.add("shwraplen %s 10000" % hx(b"\x11" + rng.randbytes(16)), str(BAD_SHAREKEY), "bpki:wrap:share", "share index 17")
+    # (b) the real thing: length query, then the call into an exact-size block of the announced length (harness: code 9999 if the
+    # written length differs; ASan if it is exceeded), then Unwrap of exactly these octets (stage 2).  PBKDF2 cost grows with iter:
+    # 32767/32768 run on the model too, 65535/65536 on the implementation only in the quick tier, 8388607/8388608 thorough only.
+    kl = [24, 32, 48, 64]
+    sl = [17, 25, 33]
+    b = ctx.seed
+    plan = [("pk", kl[b % 4], 32767, True), ("pk", kl[(b + 1) % 4], 32768, True), ("sh", sl[b % 3], 32767, True), ("sh", sl[(b + 1) % 3], 32768, True),
+            ("pk", kl[(b + 2) % 4], 65535, not quick), ("pk", kl[(b + 3) % 4], 65536, not quick), ("sh", sl[(b + 2) % 3], 65536, not quick)]
+    if not quick:
+        plan += [("pk", n, it, True) for n in kl for it in (10001, 32768)] + [("sh", n, it, True) for n in sl for it in (10001, 32767)]
+        plan += [("sh", sl[b % 3], 65535, True), ("pk", kl[b % 4], 8388607, False), ("sh", sl[(b + 1) % 3], 8388608, False)]
+    for j, (kind, n, it, lean) in enumerate(plan):
+        payload = rng.randbytes(n) if kind == "pk" else bytes([rng.choice([1, 16, rng.randrange(1, 17)])]) + rng.randbytes(n - 1)
+        add(kind, payload, pwds[(j + ctx.seed) % 4], rng.randbytes(8), it, r"0 [0-9a-f]{%d}" % (2 * epki_len_ref(kind, n, it)), "bpki:wrap:iterlen",
+            "container for iter = %d refused, or announced / written / reference lengths differ" % it, lean=lean)
     # the same construction with small iteration counts (static codecs + beltPBKDF2 + beltKWPWrap): many cases
     for kind, sizes in (("pk", (24, 32, 48, 64)), ("sh", (17, 25, 33))):
         for n in sizes:
@@ -716,7 +771,7 @@ def bpki_stage1(ctx, bag, st):
 def bpki_stage2(ctx, bag, st, c_out):
     rng, quick = ctx.rng, ctx.tier == "quick"
     nalt = 0
-    for (i, kind, payload, pwd, salt, it, genuine) in st["wraps"]:
+    for (i, kind, payload, pwd, salt, it, genuine, lean) in st["wraps"]:
         o = c_out[i] if i < len(c_out) else ""
         if not o.startswith("0 "):
             continue
@@ -731,7 +786,11 @@ def bpki_stage2(ctx, bag, st, c_out):
             bag.add("%s %s %s" % (un, hx(e), hx(pwd)), r"0 %d \| %d %s" % (len(payload), BAD_SHAREKEY, hx(payload)), "bpki:unwrap:share", "share with a bad first octet")
             continue
         bag.add("%s %s %s" % (un, hx(e), hx(pwd)), r"0 %d \| 0 %s" % (len(payload), hx(payload)), "bpki:roundtrip",
-                "Unwrap(Wrap(key, pwd), pwd) does not return the key")
+                "Unwrap(Wrap(key, pwd), pwd) does not return the key (iter = %d)" % it, lean=lean)
+        if it > 20000:
+            # costly PBKDF2: one wrong password, nothing else
+            bag.add("%s %s %s" % (un, hx(e), hx(pwd + b"\1")), str(BAD_KEYTOKEN), "bpki:wrongpwd", "container opened with a wrong password", lean=lean and it < 40000)
+            continue
         other = "shunwrap" if kind == "pk" else "pkunwrap"
         bag.add("%s %s %s" % (other, hx(e), hx(pwd)), str(BAD_FORMAT), "bpki:unwrap:kind", "container of the other kind accepted")
         if it > 300 and quick and rng.random() < 0.5:
